@@ -41,7 +41,7 @@ def swarm(prop, r, tier):
     cfg["tables2d_general"] = R.pick([0.3, 0.6])
     cfg["inf_limits"] = R.chance(0.15)
     cfg["via_file"] = R.pick([0.0, 0.0, 0.25])
-    cfg["collapse_inputs"] = prop in ("C12", "C16", "C14") and R.chance(0.06)
+    cfg["collapse_inputs"] = prop in ("C12", "C16", "C14", "C15") and R.chance(0.06)
     # nA..uA systems (everything scaled down): same laws, nanowatt losses
     cfg["micro"] = prop not in ("C03", "C17") and R.chance(0.07)
     # a random subset of kinds is disabled (swarm)
@@ -59,7 +59,7 @@ def swarm(prop, r, tier):
         w.update({"grow": 3, "edit": 5, "reject": 5, "phase": 0.5, "domfault": 0.2, "analyse": 0.1, "restart": 0.2, "observe": 0.1})
         cfg["n_ops"] = R.randint(20, 60 if thorough else 40)
     elif prop == "C16":
-        w.update({"grow": 3, "edit": 6, "reject": 0.5, "phase": 1.5, "domfault": 0.3, "analyse": 0.3, "restart": 0, "observe": 1.5})
+        w.update({"grow": 3, "edit": 6, "reject": 0.5, "phase": 1.5, "domfault": 0.3, "analyse": 0.3, "restart": 0.25, "observe": 1.5})
         cfg["mux"] = R.pick([0.5, 1.0])
     elif prop == "C12":
         w.update({"grow": 4, "edit": 2, "reject": 0.3, "phase": 1.5, "domfault": 0.3, "analyse": 0.3, "restart": 1.5, "observe": 1.0})
@@ -254,9 +254,7 @@ def drive(sess, rnd, cfg, record):
                 if e:
                     ops.append(make_observe(g, m, cfg))
             elif m.mux() is not None and R.chance(0.2):
-                ops = g.ops_rail_handover(m) or [g.op_change(m)]
-                for o in ops[1:]:
-                    pass
+                ops = (g.ops_rename_above_then_unlink(m) if R.chance(0.4) else []) or g.ops_rail_handover(m) or [g.op_change(m)]
                 ops.append(make_observe(g, m, cfg))
             else:
                 ops = [R.wpick([(g.op_change, 3), (g.op_del, 2), (g.op_move, 1.5)])(m)]
@@ -284,13 +282,24 @@ def drive(sess, rnd, cfg, record):
                 else:
                     ops.append(g.op_sys_phases(m))
             else:
-                ops.append(g.op_comp_phases(m, clear=R.chance(0.15)))
+                e = g.op_comp_phases(m, clear=R.chance(0.15))
+                ops.append(e)
+                if e and isinstance(e.get("conf"), dict) and e["conf"] and R.chance(0.15):
+                    # the caller hands the very same dict object to a second load
+                    k0 = m.kind(e["name"])
+                    twins = [n for n in m.order if n != e["name"] and m.kind(n) == k0]
+                    if twins:
+                        e["share_id"] = "d%d" % i
+                        ops.append({"op": "set_comp_phases", "name": R.pick(twins), "conf": copy.deepcopy(e["conf"]), "share_id": e["share_id"]})
         elif grp == "domfault":
             ops = [g.op_domfault(m)]
         elif grp == "analyse":
             ops = [g.op_analyse(m)]
         elif grp == "restart":
             ops = [{"op": "restart", "replace": True}]
+            if R.chance(0.12):
+                # the file comes from the 1.0 format: no 'groups' / 'rails' sections
+                ops = [{"op": "restart", "replace": True, "old_format": True}]
         elif grp == "observe":
             ops = [make_observe(g, m, cfg)]
             if m.mux() is not None and prop in ("C01", "C02", "C06", "C07", "C08", "C09") and R.chance(0.25):
@@ -315,7 +324,8 @@ def make_observe(g, m, cfg):
         while len(parts) < 3:
             parts.append(0)
         ma, mi, pa = parts
-        newer = ["%d.%d.%d" % (ma, mi, pa + 1), "%d.%d.0" % (ma, mi + 1), "%d.0.0" % (ma + 1), "%d.%d.%d" % (ma, mi + 10, 0)]
+        newer = ["%d.%d.%d" % (ma, mi, pa + 1), "%d.%d.0" % (ma, mi + 1), "%d.0.0" % (ma + 1), "%d.%d.%d" % (ma, mi + 10, 0),
+                 "%d.%d.%d.post1" % (ma, mi, pa), "%d.%d.%d+local.1" % (ma, mi, pa), "%d.%d.%drc1" % (ma, mi, pa + 1)]
         older = ["%d.%d.%d" % (ma, mi, pa), "1.0.0", "%d.%d.%d" % (ma, max(mi - 1, 0), 99) if mi > 0 else "0.9.0", "%d.%d.%d" % (max(ma - 1, 0), 99, 0) if ma > 0 else "0.1.0"]
         if R.chance(0.5):
             op["skew"] = {"dir": "newer", "version": R.pick(newer)}
